@@ -766,7 +766,7 @@ def run_manager_stage(ctx, quick):
     stats = {"scenarios": n, "inconclusive": 0, "disagreements": 0, "kills": sum(1 for s in scs if s["end"] == "kill"),
              "clean_failed": 0, "clean_ok": 0, "model_evaluations": 0}
     bad_cases, usable = [], []
-    retries, first_inc = 0, None
+    retries, first_inc, confirmed = 0, None, 0
     for i, (sc, r) in enumerate(zip(scs, res)):
         bad, inc = judge_manager(sc, r)
         if inc and inc != "skipped" and retries < 2:
@@ -774,6 +774,7 @@ def run_manager_stage(ctx, quick):
             r = run_impl_cases(ctx, [sc], script="c20_manager.py", workers=1)[0]
             res[i] = r
             bad, inc = judge_manager(sc, r)
+            confirmed += 1 if inc else 0
         if inc:
             stats["inconclusive"] += 1
             if inc != "skipped":
@@ -790,7 +791,7 @@ def run_manager_stage(ctx, quick):
                     stats["clean_ok" if a[1] == "ok" else "clean_failed"] += 1
         if bad:
             bad_cases.append((bad, sc))
-    if first_inc and stats["inconclusive"] >= max(2, n // 4):
+    if first_inc and (confirmed >= 2 or stats["inconclusive"] >= max(3, n // 4)):
         stats["unevaluable"] = True
         ctx.violation("TemporaryResourcesManager stage could not be evaluated on %d of %d scenarios (time-outs / hangs / "
                       "crashes): %s" % (stats["inconclusive"], n, first_inc[0]), {"kind": "manager", "scenario": first_inc[1]}, True)
@@ -1066,7 +1067,7 @@ def run(ctx):
     cres = (run_impl_cases(ctx, scs, script="c20_clients.py", workers=min(8, common.NCPU)) if not hang
             else [{"skipped": "after " + hang[0]} for _ in scs])
     cl_viol, cl_inconclusive, cl_kills = 0, 0, 0
-    retries = 0
+    retries, cl_confirmed = 0, 0
     first_inc = None
     for sc, r in zip(scs, cres):
         if r.get("skipped"):
@@ -1077,6 +1078,7 @@ def run(ctx):
             retries += 1
             r = run_impl_cases(ctx, [sc], script="c20_clients.py", workers=1)[0]
             bad, inc = judge_clients(sc, r)
+            cl_confirmed += 1 if inc else 0
         if inc:
             cl_inconclusive += 1
             first_inc = first_inc or (inc, sc)
@@ -1085,7 +1087,7 @@ def run(ctx):
             cl_viol += 1
             ctx.violation("client-side sample: " + bad, {"kind": "clients", "scenario": sc}, True)
         cl_kills += sum(1 for s in sc["script"] if s[1] == "kill")
-    if first_inc and cl_inconclusive >= max(2, len(scs) // 4):
+    if first_inc and (cl_confirmed >= 2 or cl_inconclusive >= max(3, len(scs) // 4)):
         hang.append("client-side sample")
         ctx.violation("client-side sample could not be evaluated on %d of %d scenarios (time-outs / hangs): %s"
                       % (cl_inconclusive, len(scs), first_inc[0]), {"kind": "clients", "scenario": first_inc[1]}, True)
